@@ -29,13 +29,16 @@ import (
 // generated directory trees under $VERIF_WORK and runs the binary on them.
 //
 // Tie (c.Op):    `run`/`stdin` lines: the binary's stdout, stderr lines, exit status and the files it
-//                rewrote = the Lean model's prediction, given the formatter's result (computed
-//                in-process with the syntax package under the options the harness planned; the model
-//                recomputes the options itself and reports a plan-mismatch otherwise).
-//                `shebang`, `cbs` lines: fileutil.Shebang / CouldBeScript2 in-process.
-//                `specpatch`: the Lean patcher applied to the diff text the binary printed.
+//
+//	rewrote = the Lean model's prediction, given the formatter's result (computed
+//	in-process with the syntax package under the options the harness planned; the model
+//	recomputes the options itself and reports a plan-mismatch otherwise).
+//	`shebang`, `cbs` lines: fileutil.Shebang / CouldBeScript2 in-process.
+//	`specpatch`: the Lean patcher applied to the diff text the binary printed.
+//
 // Search (c.Fail): the property's statements run on the binary alone (S1 -l, S2 -d + a Go reference
-//                patcher, S3 -w then -l, S4 stdin = file, S5 flags = equivalent EditorConfig).
+//
+//	patcher, S3 -w then -l, S4 stdin = file, S5 flags = equivalent EditorConfig).
 func init() { register("C36", c36) }
 
 // ---------------------------------------------------------------------------------------------
@@ -1108,13 +1111,13 @@ func c36GenCase(r *Rand) (cs c36Case, tags []string) {
 
 type c36OpLine struct{ op, impl string }
 type c36Result struct {
-	ops      []c36OpLine
-	fails    []Failure
-	tags     []string
-	runs     int
-	nontriv  bool
-	skipped  string
-	key      string
+	ops     []c36OpLine
+	fails   []Failure
+	tags    []string
+	runs    int
+	nontriv bool
+	skipped string
+	key     string
 }
 
 var c36DirN struct {
@@ -1713,7 +1716,7 @@ func c36(c *Ctx) {
 			jobs = append(jobs, job{"case", cs, r, false, tags})
 		}
 	}
-	results := parallelMap(len(jobs), 12, func(i int) c36Result {
+	results := parallelMap(len(jobs), 4, func(i int) c36Result {
 		j := jobs[i]
 		var res c36Result
 		p := safely(func() {
